@@ -58,6 +58,10 @@ class RandomGen(Gen):
         if block.show_errors():
             return SamplingResult([], {})
 
+        if any(cast(CrossBlock, block).crossing_size(c) == 0 for c in block.crossings):
+            # Every combination of some crossing is excluded or impossible
+            return SamplingResult([], {'solution_count': 0})
+
         # 2. Count how many solutions there are. The enumerator will note
         # the crossing size and minimum-trial request, and it will be prepared
         # to generate runs of a crossing-size length or "leftover" length.
